@@ -329,3 +329,383 @@ theorem filterRespects_of_scalar (t : Bool) (name : Bytes)
 theorem filterRespects_of_noImpl (t : Bool) (name : Bytes) (h : lookupImpl stdFilterImpls name = none) :
     FilterRespects t name :=
   filterRespects_of_impl name (fun sg f _ hf => by rw [h] at hf; cases hf)
+
+/-! ## The filters with `[]any` and `any` parameters -/
+
+/-- a one-element related argument list -/
+theorem argsRel_cons {p : Param} {ps : List Param} {cs cs' : List Arg} (h : ArgsRel (p :: ps) cs cs') :
+    ∃ a as a' as', cs = a :: as ∧ cs' = a' :: as' ∧ ArgRel p a a' ∧ ArgsRel ps as as' := by
+  cases cs with
+  | nil => simp [ArgsRel] at h
+  | cons a as =>
+    cases cs' with
+    | nil => simp [ArgsRel] at h
+    | cons a' as' => exact ⟨a, as, a', as', rfl, rfl, h.1, h.2⟩
+
+theorem argsRel_nil {cs cs' : List Arg} (h : ArgsRel [] cs cs') : cs = [] ∧ cs' = [] := by
+  cases cs <;> cases cs' <;> simp_all [ArgsRel]
+
+theorem argRel_val {t : ParamTy} {a a' : Arg} (h : ArgRel (.val t) a a') : ∃ c c', a = .val c ∧ a' = .val c' ∧ ArgValRel t c c' := by
+  cases a <;> cases a' <;> simp only [ArgRel] at h
+  exact ⟨_, _, rfl, rfl, h⟩
+
+theorem argsRel_anys1 {cs cs' : List Arg} (h : ArgsRel [.val .anys] cs cs') :
+    ∃ ys ys', cs = [.val (.slice .any ys)] ∧ cs' = [.val (.slice .any ys')] ∧ normList false ys = normList false ys' := by
+  obtain ⟨a, as, a', as', rfl, rfl, h1, h2⟩ := argsRel_cons h
+  obtain ⟨rfl, rfl⟩ := argsRel_nil h2
+  obtain ⟨c, c', rfl, rfl, ys, ys', rfl, rfl, hn⟩ := argRel_val h1
+  exact ⟨ys, ys', rfl, rfl, hn⟩
+
+theorem exrel_ok {t : Bool} {v v' : GoVal} (h : RepEq false v v') :
+    RRel t ExRel (.ok (.ok v)) (.ok (.ok v')) := h
+
+namespace ArrF
+
+theorem firstF_eq (xs : List GoVal) : firstF xs = xs.head?.getD .nil := by cases xs <;> rfl
+
+theorem lastF_eq : ∀ xs : List GoVal, lastF xs = xs.getLast?.getD .nil
+  | [] => rfl
+  | [x] => rfl
+  | x :: y :: r => by rw [lastF, lastF_eq (y :: r)]; simp [List.getLast?_cons_cons]
+
+theorem first_respects (t : Bool) : ImplRespects t [.val .anys] (eager first) := by
+  intro cs cs' h
+  obtain ⟨ys, ys', rfl, rfl, hn⟩ := argsRel_anys1 h
+  simp only [eager, FilterImpl.ofEager, FilterImpl.ofEager.collect, Res.bind, first, ret, firstF_eq]
+  exact exrel_ok (normList_head hn)
+
+theorem last_respects (t : Bool) : ImplRespects t [.val .anys] (eager last) := by
+  intro cs cs' h
+  obtain ⟨ys, ys', rfl, rfl, hn⟩ := argsRel_anys1 h
+  simp only [eager, FilterImpl.ofEager, FilterImpl.ofEager.collect, Res.bind, last, ret, lastF_eq]
+  exact exrel_ok (normList_getLast hn)
+
+theorem reverseF_eq (xs : List GoVal) : reverseF xs = xs.reverse := by
+  unfold reverseF
+  have : ∀ acc : List GoVal, xs.foldl (fun acc x => x :: acc) acc = xs.reverse ++ acc := by
+    induction xs with
+    | nil => intro acc; rfl
+    | cons x xs ih => intro acc; simp [List.foldl, ih]
+  simp [this []]
+
+theorem slice_any_rel {ys ys' : List GoVal} (h : normList false ys = normList false ys') :
+    RepEq false (.slice .any ys) (.slice .any ys') := by
+  simp only [RepEq, norm, h]
+
+theorem reverse_respects (t : Bool) : ImplRespects t [.val .anys] (eager reverse) := by
+  intro cs cs' h
+  obtain ⟨ys, ys', rfl, rfl, hn⟩ := argsRel_anys1 h
+  simp only [eager, FilterImpl.ofEager, FilterImpl.ofEager.collect, Res.bind, reverse, ret, reverseF_eq]
+  refine exrel_ok (slice_any_rel ?_)
+  simp only [normList_eq_map, List.map_reverse] at hn ⊢
+  rw [hn]
+
+theorem isNil_repEq_false {x x' : GoVal} (h : RepEq false x x') : x.isNil = x'.isNil := by
+  rcases repEq_false_cases h with rfl | ⟨h1, h2⟩
+  · rfl
+  · cases x <;> cases x' <;> simp_all [rigidF, GoVal.isNil]
+
+theorem compactF_rel : ∀ {ys ys' : List GoVal}, normList false ys = normList false ys' →
+    normList false (compactF ys) = normList false (compactF ys')
+  | [], [], _ => rfl
+  | [], _ :: _, h => by simp [normList] at h
+  | _ :: _, [], h => by simp [normList] at h
+  | y :: ys, y' :: ys', h => by
+    simp only [normList, List.cons.injEq] at h
+    have ih := compactF_rel h.2
+    simp only [compactF, isNil_repEq_false h.1]
+    split
+    · exact ih
+    · simp only [normList, ih, h.1]
+
+theorem compact_respects (t : Bool) : ImplRespects t [.val .anys] (eager compact) := by
+  intro cs cs' h
+  obtain ⟨ys, ys', rfl, rfl, hn⟩ := argsRel_anys1 h
+  simp only [eager, FilterImpl.ofEager, FilterImpl.ofEager.collect, Res.bind, compact, ret]
+  exact exrel_ok (slice_any_rel (compactF_rel hn))
+
+end ArrF
+
+namespace ArrF
+
+theorem concat_respects (t : Bool) : ImplRespects t [.val .anys, .val .anys] (eager concat) := by
+  intro cs cs' h
+  obtain ⟨a, as, a', as', rfl, rfl, h1, h2⟩ := argsRel_cons h
+  obtain ⟨ys, ys', rfl, rfl, hn⟩ := argsRel_anys1 h2
+  obtain ⟨c, c', rfl, rfl, xs, xs', rfl, rfl, hx⟩ := argRel_val h1
+  simp only [eager, FilterImpl.ofEager, FilterImpl.ofEager.collect, Res.bind, concat, ret, concatF]
+  refine exrel_ok (slice_any_rel ?_)
+  simp only [normList_eq_map, List.map_append] at hn hx ⊢
+  rw [hn, hx]
+
+theorem sprintNonNil_rel : ∀ {ys ys' : List GoVal}, normList false ys = normList false ys' →
+    sprintNonNil ys = sprintNonNil ys'
+  | [], [], _ => rfl
+  | [], _ :: _, h => by simp [normList] at h
+  | _ :: _, [], h => by simp [normList] at h
+  | y :: ys, y' :: ys', h => by
+    simp only [normList, List.cons.injEq] at h
+    simp only [sprintNonNil, isNil_repEq_false h.1, sprint_repEq_false h.1, sprintNonNil_rel h.2]
+
+theorem join_respects (t : Bool) : ImplRespects t [.val .anys, .fn .str] (eager join) := by
+  intro cs cs' h
+  obtain ⟨a, as, a', as', rfl, rfl, h1, h2⟩ := argsRel_cons h
+  obtain ⟨b, bs, b', bs', rfl, rfl, h3, h4⟩ := argsRel_cons h2
+  obtain ⟨rfl, rfl⟩ := argsRel_nil h4
+  obtain ⟨c, c', rfl, rfl, xs, xs', rfl, rfl, hx⟩ := argRel_val h1
+  have hs := sprintNonNil_rel hx
+  cases b with
+  | val v => cases b' <;> simp only [ArgRel] at h3
+  | fn o =>
+    cases b' with
+    | val v => cases o <;> simp only [ArgRel] at h3
+    | fn o' =>
+      cases o with
+      | none =>
+        cases o' <;> simp only [ArgRel] at h3
+        simp only [eager, FilterImpl.ofEager, FilterImpl.ofEager.collect, Res.bind, join, joinF, hs]
+        exact RRel.of_eq (fun e => by cases e <;> simp [ExRel, RepEq.refl]) rfl
+      | some r =>
+        cases o' with
+        | none => simp only [ArgRel] at h3
+        | some r' =>
+          simp only [ArgRel] at h3
+          have : r = r' := by
+            cases r <;> cases r' <;> simp only [RRel, ArgValRel] at h3 <;> simp_all
+          subst this
+          simp only [eager, FilterImpl.ofEager, FilterImpl.ofEager.collect]
+          cases r with
+          | ok v =>
+            simp only [Res.bind]
+            cases v <;> simp only [join, joinF, hs, badArgs] <;>
+              exact RRel.of_eq (fun e => by cases e <;> simp [ExRel, RepEq.refl]) rfl
+          | _ => simp [Res.bind, RRel]
+
+theorem propOf_rel {x x' : GoVal} (h : RepEq false x x') (k : Bytes) :
+    RRel false (RepEq false) (propOf x k) (propOf x' k) := by
+  have := propertyValue_rel h.vrel k
+  unfold propOf
+  cases h1 : x.propertyValue k <;> cases h2 : x'.propertyValue k <;> rw [h1, h2] at this <;> simp only [LRel] at this
+  · exact this.unwrap
+  · exact .inr this
+
+theorem mapF_rel (k : Bytes) : ∀ {ys ys' : List GoVal}, normList false ys = normList false ys' →
+    RRel false (fun vs vs' => normList false vs = normList false vs') (mapF k ys) (mapF k ys')
+  | [], [], _ => by simp [mapF, RRel]
+  | [], _ :: _, h => by simp [normList] at h
+  | _ :: _, [], h => by simp [normList] at h
+  | y :: ys, y' :: ys', h => by
+    simp only [normList, List.cons.injEq] at h
+    simp only [mapF]
+    refine RRel.bind (propOf_rel h.1 k) (fun v v' hv => RRel.bind (mapF_rel k h.2) (fun vs vs' hvs => ?_))
+    simp only [RRel, normList, hvs]
+    rw [hv]
+
+theorem map_respects (t : Bool) : ImplRespects t [.val .anys, .val .str] (eager map) := by
+  intro cs cs' h
+  obtain ⟨a, as, a', as', rfl, rfl, h1, h2⟩ := argsRel_cons h
+  obtain ⟨b, bs, b', bs', rfl, rfl, h3, h4⟩ := argsRel_cons h2
+  obtain ⟨rfl, rfl⟩ := argsRel_nil h4
+  obtain ⟨c, c', rfl, rfl, xs, xs', rfl, rfl, hx⟩ := argRel_val h1
+  obtain ⟨k, k', rfl, rfl, hk⟩ := argRel_val h3
+  simp only [ArgValRel] at hk
+  subst hk
+  simp only [eager, FilterImpl.ofEager, FilterImpl.ofEager.collect, Res.bind]
+  cases k <;> simp only [map, badArgs] <;> try (exact RRel.of_eq (fun e => by cases e <;> simp [ExRel, RepEq.refl]) rfl)
+  next s =>
+    have := mapF_rel s hx
+    cases h1 : mapF s xs <;> cases h2 : mapF s xs' <;> rw [h1, h2] at this <;> simp only [RRel] at this <;>
+      simp only [Res.bind, ret, RRel] <;> first
+        | exact slice_any_rel this
+        | exact this
+        | (rcases this with h | h <;> simp_all)
+
+end ArrF
+
+namespace Num
+
+theorem argsRel_any1 {cs cs' : List Arg} (h : ArgsRel [.val .any] cs cs') :
+    ∃ v v', cs = [.val v] ∧ cs' = [.val v'] ∧ URel false v v' := by
+  obtain ⟨a, as, a', as', rfl, rfl, h1, h2⟩ := argsRel_cons h
+  obtain ⟨rfl, rfl⟩ := argsRel_nil h2
+  obtain ⟨c, c', rfl, rfl, hc⟩ := argRel_val h1
+  exact ⟨c, c', rfl, rfl, hc⟩
+
+theorem exrel_refl (t : Bool) (r : Res Cause (Except Cause GoVal)) : RRel t ExRel r r :=
+  RRel.of_eq (fun e => by cases e <;> simp [ExRel, RepEq.refl]) rfl
+
+theorem size_respects (t : Bool) : ImplRespects t [.val .any] size := by
+  intro cs cs' h
+  obtain ⟨v, v', rfl, rfl, hv⟩ := argsRel_any1 h
+  simp only [size, unw_toLiquid hv.1, unw_toLiquid hv.2.1]
+  rcases repEq_false_cases hv.2.2 with rfl | ⟨h1, h2⟩
+  · exact exrel_refl t _
+  · have hnd := hv.2.1.noDrop
+    cases v with
+    | slice ty xs =>
+      obtain ⟨xs', hs, hn⟩ := norm_inv_seq (u := .slice ty xs) rfl hnd hv.2.2
+      cases v' <;> simp [seqElems?] at hs <;> subst hs <;> simp only [normList_length hn] <;> exact exrel_refl t _
+    | array ty xs =>
+      obtain ⟨xs', hs, hn⟩ := norm_inv_seq (u := .array ty xs) rfl hnd hv.2.2
+      cases v' <;> simp [seqElems?] at hs <;> subst hs <;> simp only [normList_length hn] <;> exact exrel_refl t _
+    | map kt vt kvs =>
+      rcases norm_inv_map hnd hv.2.2 with rfl | ⟨_, vt', kvs', rfl, _, hn⟩
+      · exact exrel_refl t _
+      · exact exrel_refl t _
+    | _ => simp [rigidF] at h1
+
+theorem isEmpty_len {α β} {xs : List α} {ys : List β} (h : xs.length = ys.length) : xs.isEmpty = ys.isEmpty := by
+  cases xs <;> cases ys <;> simp_all
+
+theorem isEmpty_rel {v v' : GoVal} (hv : URel false v v') : isEmpty v = isEmpty v' := by
+  rcases repEq_false_cases hv.2.2 with rfl | ⟨h1, h2⟩
+  · rfl
+  · have hnd := hv.2.1.noDrop
+    cases v with
+    | slice ty xs =>
+      obtain ⟨xs', hs, hn⟩ := norm_inv_seq (u := .slice ty xs) rfl hnd hv.2.2
+      have hl := normList_length hn
+      cases v' <;> simp [seqElems?] at hs <;> subst hs <;> exact isEmpty_len hl
+    | array ty xs =>
+      obtain ⟨xs', hs, hn⟩ := norm_inv_seq (u := .array ty xs) rfl hnd hv.2.2
+      have hl := normList_length hn
+      cases v' <;> simp [seqElems?] at hs <;> subst hs <;> exact isEmpty_len hl
+    | map kt vt kvs =>
+      rcases norm_inv_map hnd hv.2.2 with rfl | ⟨_, vt', kvs', rfl, _, hn⟩
+      · rfl
+      · exact isEmpty_len (normKVs_length hn)
+    | _ => simp [rigidF] at h1
+
+theorem default_respects (t : Bool) : ImplRespects t [.val .any, .val .any] default := by
+  intro cs cs' h
+  obtain ⟨a, as, a', as', rfl, rfl, h1, h2⟩ := argsRel_cons h
+  obtain ⟨dv, dv', rfl, rfl, hd⟩ := argsRel_any1 h2
+  obtain ⟨v, v', rfl, rfl, hv⟩ := argRel_val h1
+  simp only [ArgValRel] at hv
+  simp only [default, ret]
+  rcases repEq_false_cases hv.2.2 with rfl | ⟨hr1, hr2⟩
+  · have key : ∀ c : Bool, RRel t ExRel (.ok (.ok (if c = true then dv else v'))) (.ok (.ok (if c = true then dv' else v'))) := by
+      intro c
+      cases c
+      · exact exrel_ok (RepEq.refl _)
+      · exact exrel_ok hd.2.2
+    exact key _
+  · have := isEmpty_rel hv
+    rw [← unw_toLiquid hv.1, ← unw_toLiquid hv.2.1] at this
+    cases v <;> simp [rigidF] at hr1 <;> cases v' <;> simp [rigidF] at hr2 <;> simp only [this] <;>
+      (split
+       · exact exrel_ok hd.2.2
+       · exact exrel_ok hv.2.2)
+
+theorem dividedBy_respects (t : Bool) : ImplRespects t [.val .f64, .val .any] dividedBy := by
+  intro cs cs' h
+  obtain ⟨a, as, a', as', rfl, rfl, h1, h2⟩ := argsRel_cons h
+  obtain ⟨b, b', rfl, rfl, hb⟩ := argsRel_any1 h2
+  obtain ⟨v, v', rfl, rfl, hv⟩ := argRel_val h1
+  simp only [ArgValRel] at hv
+  subst hv
+  rcases repEq_false_cases hb.2.2 with rfl | ⟨hr1, hr2⟩
+  · exact exrel_refl t _
+  · have e1 : ∀ a : Rat, dividedBy [.val (.flt .f64 a), .val b] = retErr (.other "invalid divisor") := by
+      intro a; cases b <;> simp_all [rigidF, dividedBy]
+    have e2 : ∀ a : Rat, dividedBy [.val (.flt .f64 a), .val b'] = retErr (.other "invalid divisor") := by
+      intro a; cases b' <;> simp_all [rigidF, dividedBy]
+    cases v with
+    | flt k q =>
+      cases k with
+      | f64 => rw [e1, e2]; exact exrel_refl t _
+      | f32 => simp only [dividedBy]; exact exrel_refl t _
+    | _ => simp only [dividedBy]; exact exrel_refl t _
+
+end Num
+
+/-! ## The table of the standard filters -/
+
+theorem implRespects_of_scalar (t : Bool) {ps : List Param} (h : scalarParams ps = true) (f : FilterImpl) :
+    ImplRespects t ps f := by
+  intro cs cs' hcs
+  rw [argsRel_scalar_eq h hcs]
+  exact Num.exrel_refl t _
+
+/-- the signature registered under a name has scalar parameters only (or the name is not registered) -/
+def scalarSigB (name : Bytes) : Bool :=
+  match lookupSig name with
+  | some sg => scalarParams sg.params
+  | none => true
+
+/-- an entry of the table of filter bodies respects the equivalence under the signature of its name -/
+def goodEntry (t : Bool) (e : Bytes × FilterImpl) : Prop :=
+  ∀ sg, lookupSig e.1 = some sg → ImplRespects t sg.params e.2
+
+theorem goodEntry_of_scalar (t : Bool) {name : Bytes} (h : scalarSigB name = true) (f : FilterImpl) : goodEntry t (name, f) := by
+  intro sg hs
+  simp only [scalarSigB, hs] at h
+  exact implRespects_of_scalar t h f
+
+theorem goodEntry_of_sig (t : Bool) {name : Bytes} {f : FilterImpl} (sg0 : FilterSig) (hs0 : lookupSig name = some sg0)
+    (h : ImplRespects t sg0.params f) : goodEntry t (name, f) := by
+  intro sg hs
+  simp only at hs
+  rw [hs0] at hs
+  cases hs
+  exact h
+
+/-- the filters whose bodies are not shown to respect the equivalence: `uniq` does not (it compares
+    elements by Go interface equality: see the counterexample in `Proofs/C18.lean`); `sort` and
+    `sort_natural` are open -/
+def openFilters : List Bytes := [ArrF.bn "sort", ArrF.bn "uniq", ArrF.bn "sort_natural"]
+
+theorem strGlue_scalar : StrGlue.names.all (fun n => scalarSigB n.toUTF8.toList) = true := by decide +kernel
+
+theorem goodEntry_std (t : Bool) : ∀ e ∈ stdFilterImpls, e.1 ∉ openFilters → goodEntry t e := by
+  intro e he hn
+  simp only [stdFilterImpls, List.mem_append] at he
+  rcases he with (he | he) | he
+  · simp only [Num.impls, List.mem_cons, List.not_mem_nil, or_false] at he
+    rcases he with rfl | rfl | rfl | rfl | rfl | rfl | rfl | rfl | rfl | rfl | rfl
+    · exact goodEntry_of_scalar t (by decide +kernel) _
+    · exact goodEntry_of_scalar t (by decide +kernel) _
+    · exact goodEntry_of_scalar t (by decide +kernel) _
+    · exact goodEntry_of_scalar t (by decide +kernel) _
+    · exact goodEntry_of_scalar t (by decide +kernel) _
+    · exact goodEntry_of_scalar t (by decide +kernel) _
+    · exact goodEntry_of_scalar t (by decide +kernel) _
+    · exact goodEntry_of_sig t ⟨Num.bn "divided_by", [.val .f64, .val .any], true⟩ (by decide +kernel) (Num.dividedBy_respects t)
+    · exact goodEntry_of_scalar t (by decide +kernel) _
+    · exact goodEntry_of_sig t ⟨Num.bn "default", [.val .any, .val .any], false⟩ (by decide +kernel) (Num.default_respects t)
+    · exact goodEntry_of_sig t ⟨Num.bn "size", [.val .any], false⟩ (by decide +kernel) (Num.size_respects t)
+  · simp only [StrGlue.impls, List.mem_map] at he
+    obtain ⟨n, hn', rfl⟩ := he
+    exact goodEntry_of_scalar t (List.all_eq_true.mp strGlue_scalar n hn') _
+  · simp only [ArrF.impls, List.mem_cons, List.not_mem_nil, or_false] at he
+    rcases he with rfl | rfl | rfl | rfl | rfl | rfl | rfl | rfl | rfl | rfl
+    · exact goodEntry_of_sig t ⟨ArrF.bn "compact", [.val .anys], false⟩ (by decide +kernel) (ArrF.compact_respects t)
+    · exact goodEntry_of_sig t ⟨ArrF.bn "concat", [.val .anys, .val .anys], false⟩ (by decide +kernel) (ArrF.concat_respects t)
+    · exact goodEntry_of_sig t ⟨ArrF.bn "join", [.val .anys, .fn .str], false⟩ (by decide +kernel) (ArrF.join_respects t)
+    · exact goodEntry_of_sig t ⟨ArrF.bn "map", [.val .anys, .val .str], false⟩ (by decide +kernel) (ArrF.map_respects t)
+    · exact goodEntry_of_sig t ⟨ArrF.bn "reverse", [.val .anys], false⟩ (by decide +kernel) (ArrF.reverse_respects t)
+    · exact absurd (by simp [openFilters]) hn
+    · exact goodEntry_of_sig t ⟨ArrF.bn "first", [.val .anys], false⟩ (by decide +kernel) (ArrF.first_respects t)
+    · exact goodEntry_of_sig t ⟨ArrF.bn "last", [.val .anys], false⟩ (by decide +kernel) (ArrF.last_respects t)
+    · exact absurd (by simp [openFilters]) hn
+    · exact absurd (by simp [openFilters]) hn
+
+theorem lookupImpl_mem {tbl : List (Bytes × FilterImpl)} {name : Bytes} {f : FilterImpl}
+    (h : lookupImpl tbl name = some f) : (name, f) ∈ tbl := by
+  unfold lookupImpl at h
+  cases hf : tbl.find? (·.1 == name) with
+  | none => simp [hf] at h
+  | some e =>
+    simp only [hf, Option.map_some, Option.some.injEq] at h
+    have hm := List.mem_of_find?_eq_some hf
+    have hp := List.find?_some hf
+    simp only [beq_iff_eq] at hp
+    obtain ⟨n, g⟩ := e
+    simp only at hp h
+    subst hp h
+    exact hm
+
+/-- every standard filter other than `sort`, `uniq`, `sort_natural` respects representation
+    equivalence (`d = false`), for every name (registered or not) -/
+theorem filterRespects_std (t : Bool) (name : Bytes) (h : name ∉ openFilters) : FilterRespects t name :=
+  filterRespects_of_impl name (fun sg f hs hf => goodEntry_std t (name, f) (lookupImpl_mem hf) h sg hs)
